@@ -31,7 +31,8 @@ func (upcEEncoder) encodeWithHints(contents string, hints map[gozxing.EncodeHint
 	switch length {
 	case 7:
 		// No check digit present, calculate it and add it
-		check, e := upceanReader_getStandardUPCEANChecksum(contents)
+		// the check digit is that of the expanded UPC-A number
+		check, e := upceanReader_getStandardUPCEANChecksum(convertUPCEtoUPCA(contents))
 		if e != nil {
 			return nil, gozxing.NewWriterException("IllegalArgumentException: %s", e.Error())
 		}
